@@ -1203,3 +1203,43 @@ pub fn family_lalr4() -> Vec<RefGrammar> {
     }
     out
 }
+
+/// F-refgraph: rule-reference graphs on four rules. Rule i has the single production
+/// `<at most two rule references, in every order> 't0'`: 21 choices per rule, 21^4 = 194,481
+/// grammars. Which rules are reachable from which - and in what order a traversal meets them,
+/// forwards and backwards in declaration order - is all that varies.
+pub fn family_refgraph() -> Vec<RefGrammar> {
+    let n = 4usize;
+    let mut choices: Vec<Vec<Sym>> = vec![vec![]];
+    for a in 0..n {
+        choices.push(vec![R(a)]);
+        for b in 0..n {
+            choices.push(vec![R(a), R(b)]);
+        }
+    }
+    let mut out = vec![];
+    let mut idx = vec![0usize; n];
+    loop {
+        let rules: Vec<Vec<Vec<Sym>>> = idx
+            .iter()
+            .map(|c| {
+                let mut p = choices[*c].clone();
+                p.push(T(0));
+                vec![p]
+            })
+            .collect();
+        out.push(g(1, rules));
+        let mut k = 0;
+        loop {
+            if k == n {
+                return out;
+            }
+            idx[k] += 1;
+            if idx[k] < choices.len() {
+                break;
+            }
+            idx[k] = 0;
+            k += 1;
+        }
+    }
+}
